@@ -157,7 +157,9 @@ impl ToMysqlValue for u8 {
                 }
             }
             ColumnType::MYSQL_TYPE_TINY => {
-                assert!(!signed);
+                if signed {
+                    return Err(bad(self, c));
+                }
                 w.write_u8(*self)
             }
             _ => Err(bad(self, c)),
@@ -196,7 +198,9 @@ impl ToMysqlValue for i8 {
                 }
             }
             ColumnType::MYSQL_TYPE_TINY => {
-                assert!(signed);
+                if !signed {
+                    return Err(bad(self, c));
+                }
                 w.write_i8(*self)
             }
             _ => Err(bad(self, c)),
@@ -224,7 +228,9 @@ impl ToMysqlValue for u16 {
                 }
             }
             ColumnType::MYSQL_TYPE_SHORT | ColumnType::MYSQL_TYPE_YEAR => {
-                assert!(!signed);
+                if signed {
+                    return Err(bad(self, c));
+                }
                 w.write_u16::<LittleEndian>(*self)
             }
             _ => Err(bad(self, c)),
@@ -256,7 +262,9 @@ impl ToMysqlValue for i16 {
                 }
             }
             ColumnType::MYSQL_TYPE_SHORT | ColumnType::MYSQL_TYPE_YEAR => {
-                assert!(signed);
+                if !signed {
+                    return Err(bad(self, c));
+                }
                 w.write_i16::<LittleEndian>(*self)
             }
             _ => Err(bad(self, c)),
@@ -277,7 +285,9 @@ impl ToMysqlValue for u32 {
                 }
             }
             ColumnType::MYSQL_TYPE_LONG | ColumnType::MYSQL_TYPE_INT24 => {
-                assert!(!signed);
+                if signed {
+                    return Err(bad(self, c));
+                }
                 w.write_u32::<LittleEndian>(*self)
             }
             _ => Err(bad(self, c)),
@@ -302,7 +312,9 @@ impl ToMysqlValue for i32 {
                 }
             }
             ColumnType::MYSQL_TYPE_LONG | ColumnType::MYSQL_TYPE_INT24 => {
-                assert!(signed);
+                if !signed {
+                    return Err(bad(self, c));
+                }
                 w.write_i32::<LittleEndian>(*self)
             }
             _ => Err(bad(self, c)),
@@ -316,7 +328,9 @@ impl ToMysqlValue for u64 {
         let signed = !c.colflags.contains(ColumnFlags::UNSIGNED_FLAG);
         match c.coltype {
             ColumnType::MYSQL_TYPE_LONGLONG => {
-                assert!(!signed);
+                if signed {
+                    return Err(bad(self, c));
+                }
                 w.write_u64::<LittleEndian>(*self)
             }
             _ => Err(bad(self, c)),
@@ -330,7 +344,9 @@ impl ToMysqlValue for i64 {
         let signed = !c.colflags.contains(ColumnFlags::UNSIGNED_FLAG);
         match c.coltype {
             ColumnType::MYSQL_TYPE_LONGLONG => {
-                assert!(signed);
+                if !signed {
+                    return Err(bad(self, c));
+                }
                 w.write_i64::<LittleEndian>(*self)
             }
             _ => Err(bad(self, c)),
